@@ -341,7 +341,11 @@ Proof.
         destruct (negb ok); [discriminate|].
         assert (G0 : good t w t w1) by (eapply good_req_quiet; eauto).
         assert (Hnr1 : ~ running w1 p) by (eapply good_nr; eauto).
-        destruct (find_bp bps (pc - 1)) as [b|]; [|discriminate].
+        destruct (find_bp bps (pc - 1)) as [b|];
+          [| (* the breakpoint is not in the table anymore: the trap is consumed, the tracee marked stopped *)
+             bindH H; destruct (good_ensure _ w1 _ _ _ E Hnr1) as [G1 Gd1]; inv H;
+             split; [eapply good_trans; [exact G0 | exact G1] |];
+             split; [exact Gd1 | intros _ Hu; discriminate] ].
         match type of H with (if ?c then _ else _) = _ => destruct c end.
         -- (* swallowed *)
            bindH H. destruct a as [t5 w5]. bindH H. inv H.
